@@ -6,6 +6,7 @@ import (
 	"go/token"
 	"go/types"
 	"strings"
+	"utilcheck/pred"
 
 	"golang.org/x/tools/go/ssa"
 )
@@ -43,6 +44,9 @@ func stripConv(v ssa.Value) ssa.Value {
 	for {
 		switch x := v.(type) {
 		case *ssa.Convert:
+			if narrowingConv(x) {
+				return v // int16(n), uint32(lo): not the same number
+			}
 			v = x.X
 		case *ssa.ChangeType:
 			v = x.X
@@ -50,6 +54,11 @@ func stripConv(v ssa.Value) ssa.Value {
 			return v
 		}
 	}
+}
+
+// narrowingConv: an integer converted to an integer type of fewer bits.
+func narrowingConv(c *ssa.Convert) bool {
+	return pred.NarrowingInt(c.X.Type(), c.Type())
 }
 
 // rootInput follows conversions/slices back to a parameter.
@@ -380,7 +389,7 @@ func (c *Ctx) RuleLimitFirst(fn *ssa.Function, inputIdx int, sentinel *ssa.Globa
 								return
 							}
 							c.checkWorkDominated(fn, input, okBlk, call)
-							c.checkSuccessDominated(fn, input, okBlk, call)
+							c.checkSuccessDominated(fn, input, okBlk, nil, call)
 							c.RuleLimitFirst(callee, ai, sentinel, depth+1)
 							return
 						}
@@ -392,7 +401,7 @@ func (c *Ctx) RuleLimitFirst(fn *ssa.Function, inputIdx int, sentinel *ssa.Globa
 		return
 	}
 	c.checkWorkDominated(fn, input, gi.okBlk, nil)
-	c.checkSuccessDominated(fn, input, gi.okBlk, nil)
+	c.checkSuccessDominated(fn, input, gi.okBlk, gi.errBlk, nil)
 	// error edge: returns error built from zero T and wrapping the sentinel, no operand derived from input content
 	c.checkTooLongEdge(fn, gi, input, sentinel)
 }
@@ -536,7 +545,27 @@ func emptyOnlyBlock(fn *ssa.Function, input *ssa.Parameter, b *ssa.BasicBlock) b
 // checkSuccessDominated: "any longer input is rejected": no return with a nil error is reachable without passing the
 // guard — a success return outside the guard's continuation answers over-long input like any other. Exempt: a return
 // under `len(input) == 0` (an empty text is not longer than a non-zero limit).
-func (c *Ctx) checkSuccessDominated(fn *ssa.Function, input *ssa.Parameter, okBlk *ssa.BasicBlock, after *ssa.Call) {
+// usesParam: some operand of the instructions feeding ret's block (the block of the return) derives from the parameter.
+func usesParam(ret *ssa.Return, input *ssa.Parameter) bool {
+	for _, in := range ret.Block().Instrs {
+		for _, op := range in.Operands(nil) {
+			if *op == nil {
+				continue
+			}
+			if call, isCall := in.(*ssa.Call); isCall {
+				if bi, ok := call.Call.Value.(*ssa.Builtin); ok && bi.Name() == "len" {
+					continue
+				}
+			}
+			if rootParam(*op) == input {
+				return true
+			}
+		}
+	}
+	return false
+}
+
+func (c *Ctx) checkSuccessDominated(fn *ssa.Function, input *ssa.Parameter, okBlk, errBlk *ssa.BasicBlock, after *ssa.Call) {
 	res := fn.Signature.Results()
 	if res.Len() == 0 || !isErrorType(res.At(res.Len()-1).Type()) {
 		return
@@ -624,6 +653,53 @@ func (c *Ctx) checkSuccessDominated(fn *ssa.Function, input *ssa.Parameter, okBl
 		}
 		if mayBeNil(ret.Results[len(ret.Results)-1], 0) && !emptyOnly(b) && !emptyFlag(b) {
 			c.add("violated", "C18.L", fn, ret.Pos(), "a return with a nil error is reachable without passing the input-length guard: input longer than the limit is answered instead of rejected")
+			continue
+		}
+		// another rejection in front of the guard (`if r&RuleDisableURN != 0 && l == 45 { return …(input, ErrURNFormatDisabled) }`):
+		// an over-long input then gets that error, not the too-long one — and that error repeats the input. Exempt: the
+		// too-long edge itself, an empty input, the guard helper's own error handed on.
+		if errBlk != nil && (errBlk == b || errBlk.Dominates(b)) {
+			continue
+		}
+		if emptyOnly(b) || emptyFlag(b) {
+			continue
+		}
+		ev := ret.Results[len(ret.Results)-1]
+		if after != nil {
+			handsOn := ev == ssa.Value(after)
+			if ex, ok := ev.(*ssa.Extract); ok && ex.Tuple == ssa.Value(after) {
+				handsOn = true
+			}
+			if handsOn {
+				continue
+			}
+		}
+		// another delegation to a function that holds the guard itself (two tail calls behind a rule test)
+		delegated := false
+		for _, rv := range ret.Results {
+			var dc *ssa.Call
+			switch x := rv.(type) {
+			case *ssa.Call:
+				dc = x
+			case *ssa.Extract:
+				dc, _ = x.Tuple.(*ssa.Call)
+			}
+			if dc == nil {
+				continue
+			}
+			if callee := c.StaticCallee(&dc.Call); callee != nil && inRepo(callee) {
+				for ai, a := range dc.Call.Args {
+					if rootParam(a) == input && ai < len(callee.Params) && (c.findGuard(callee, callee.Params[ai]) != nil || c.delegatesGuard(callee, ai, 0)) {
+						delegated = true
+					}
+				}
+			}
+		}
+		if delegated {
+			continue
+		}
+		if usesParam(ret, input) {
+			c.add("violated", "C18.L", fn, ret.Pos(), "an error built from the input is returned in front of the input-length guard: input longer than the limit is rejected with another error, which repeats it")
 		}
 	}
 	c.add("discharged", "C18.L", fn, fn.Pos(), fmt.Sprintf("%d return(s): none with a nil error outside the guard's continuation", n))
@@ -992,10 +1068,29 @@ func (c *Ctx) eofCheckedBlocks(fn *ssa.Function, input *ssa.Parameter) []*ssa.Ba
 
 // hasSliceOnPath reports whether v is derived from its root through a re-slice (i.e. is not the whole value).
 func hasSliceOnPath(v ssa.Value) bool {
+	return hasSliceOnPathD(v, 0)
+}
+
+func hasSliceOnPathD(v ssa.Value, depth int) bool {
+	if depth > 4 {
+		return true
+	}
 	for i := 0; i < 10; i++ {
 		switch x := v.(type) {
 		case *ssa.Slice:
 			return true
+		case *ssa.Phi: // b or b[:n], whichever branch ran: a cut text on some path
+			for _, ed := range x.Edges {
+				if hasSliceOnPathD(ed, depth+1) {
+					return true
+				}
+			}
+			return false
+		case *ssa.Call: // bytes.TrimSpace(b) and the like: a part of the text
+			if f := x.Call.StaticCallee(); f != nil && aliasReturning[origin(f).String()] {
+				return true
+			}
+			return false
 		case *ssa.MultiConvert:
 			v = x.X
 		case *ssa.Convert:
